@@ -267,21 +267,28 @@ theorem C06_conc_ledger_fired_coupled (dflt : Int) (cb : Option Nat) (now : Int)
   exact ⟨h1, h2, hoth⟩
 
 /-! ### Non-vacuity: `DeleteExpired` (thread 0) racing `GetAndDelete "live"` (thread 1), callback 7 installed,
-one expired and one live entry; both calls end at `ret`, each fired exactly what it removed -/
+one expired and one live entry; both calls end at `ret`, each fired exactly what it removed.  The traversal is free
+(`Choice.key`): thread 0 is handed "dead" twice (the second time with a stale snapshot of the entry it has already
+removed: the conditional delete finds nothing, nothing is removed or fired twice), "live" with a stale copy after
+thread 1 removed it, and "late", a key stored by thread 2 *after* the pass began (live w.r.t. the pass's clock: left
+alone) -/
 def exConc : List (Option ConcCache.Tid × ConcCache.Choice String Nat × Nat) :=
   [ (some 2, { op := some (.set "dead" 1 5) }, 0), (some 2, {}, 0), (some 2, {}, 0), (some 2, {}, 0),
     (some 2, { op := some (.set "live" 2 100) }, 0), (some 2, {}, 0), (some 2, {}, 0), (some 2, {}, 0),
     (none, {}, 6),                                                                   -- "dead" expires
     (some 0, { op := some .deleteExpired }, 0), (some 0, {}, 0), (some 0, {}, 0),    -- T0 reads callback, clock
-    (some 0, { pick := 1, seen := some ⟨1, 5⟩ }, 0),                                 -- T0 visits "dead": expired
+    (some 0, { key := some "dead", seen := some ⟨1, 5⟩ }, 0),                        -- T0 visits "dead": expired
     (some 1, { op := some (.getAndDelete "live") }, 0), (some 1, {}, 0),             -- T1 removes "live"
     (some 0, {}, 0),                                                                 -- T0 removes "dead"
     (some 1, {}, 0), (some 1, {}, 0),                                                -- T1 reads callback, fires
-    (some 0, { seen := some ⟨2, 100⟩ }, 0),                                          -- T0 visits "live" (stale copy): live
+    (some 0, { key := some "dead", seen := some ⟨1, 5⟩ }, 0), (some 0, {}, 0),       -- T0 meets "dead" again (stale copy): gone, no-op
+    (some 0, { key := some "live", seen := some ⟨2, 100⟩ }, 0),                      -- T0 visits "live" (stale copy): live
+    (some 2, { op := some (.set "late" 3 50) }, 0), (some 2, {}, 0), (some 2, {}, 0),-- T2 stores "late" after the pass began
+    (some 0, { key := some "late", seen := some ⟨3, 56⟩ }, 0),                       -- T0 visits "late": live at the pass's clock
     (some 0, {}, 0), (some 0, {}, 0), (some 0, {}, 0) ]                              -- T0 ends traversal, fires, done
 
 example : ∃ s, ConcCache.run (ConcCache.init 10 (some 7) 0) exConc = some s ∧
-    s.g.ledger = [(7, "live", 2), (7, "dead", 1)] ∧ s.g.items = [] ∧
+    s.g.ledger = [(7, "live", 2), (7, "dead", 1)] ∧ s.g.items = [("late", ⟨3, 56⟩)] ∧
     (s.l 0).pc = .ret ∧ (s.l 0).op = some .deleteExpired ∧ (s.l 0).ec = some 7 ∧
     (s.l 0).fired = [("dead", 1)] ∧ (s.l 0).erased = [("dead", 1)] ∧
     (s.l 1).pc = .ret ∧ (s.l 1).op = some (.getAndDelete "live") ∧ (s.l 1).ec = some 7 ∧
